@@ -72,6 +72,33 @@ Theorem elo_sound : forall (alts : list N) (prefs : list ranking) (axis : list N
 Proof. exact Proofs.ELO.elo_sound_spec. Qed.
 Print Assumptions elo_sound.
 
+(* Escoffier-Lang-Ozturk correctness: every single-peaked profile is accepted (no premature "3 last candidates",
+   no contradiction in cases (c), the candidate axis of case 2.(d) passes the test). *)
+Theorem elo_complete : forall (alts : list N) (prefs : list ranking),
+  NoDup alts /\ Forall (fun v => Permutation alts v) prefs /\ prefs <> [] ->
+  (exists ax, Permutation alts ax /\ forall r, In r prefs -> forall k, contiguous (firstn k r) ax) ->
+  exists axis, elo alts prefs = Ok (true, axis).
+Proof. exact Proofs.ELO.elo_complete. Qed.
+Print Assumptions elo_complete.
+
+(* the whole C03 statement, for the mirrored algorithm itself *)
+Theorem elo_correct : forall (alts : list N) (prefs : list ranking),
+  NoDup alts /\ Forall (fun v => Permutation alts v) prefs /\ prefs <> [] ->
+  exists verdict axis, elo alts prefs = Ok (verdict, axis) /\
+    (verdict = true <->
+     exists ax, Permutation alts ax /\ forall r, In r prefs -> forall k, contiguous (firstn k r) ax) /\
+    (verdict = true ->
+     (NoDup axis /\ forall a, In a axis <-> In a alts) /\
+     forall r, In r prefs -> forall k, contiguous (firstn k r) axis).
+Proof. exact Proofs.ELO.elo_correct. Qed.
+Print Assumptions elo_correct.
+
+Theorem elo_agrees_reference : forall (alts : list N) (prefs : list ranking),
+  NoDup alts /\ Forall (fun v => Permutation alts v) prefs /\ prefs <> [] ->
+  exists axis, elo alts prefs = Ok (sp_decide alts prefs, axis).
+Proof. exact Proofs.ELO.elo_agrees_reference. Qed.
+Print Assumptions elo_agrees_reference.
+
 (* ---- heredity: a single-peaked profile stays single-peaked on every subset of the alternatives; hence a small
         refuted core refutes the whole profile ---- *)
 Theorem sp_restrict : forall (alts : list N) (rs : list ranking) (S : list N),
@@ -124,6 +151,14 @@ Proof.
       try (apply nodupN_correct; vm_compute; reflexivity); vm_compute; reflexivity.
   - repeat split; vm_compute; reflexivity.
 Qed.
+
+(* the mirror run on the minimised profile of the repaired defect F1 (case 2.(d) after a common bottom), on a
+   cyclic profile, and on a 6-alternative profile *)
+Example C03_example_elo :
+  elo [1;2;3;4;5] [ [1;2;3;4;5] ; [4;3;1;2;5] ] = Ok (true, [5;4;3;1;2]) /\
+  elo [1;2;3] [ [1;2;3] ; [2;3;1] ; [3;1;2] ] = Ok (false, []) /\
+  elo [0;1;2;3;9;7] [ [2;1;3;0;9;7] ; [1;2;0;3;9;7] ; [3;2;1;0;9;7] ] = Ok (true, [7;9;0;1;2;3]).
+Proof. repeat split; vm_compute; reflexivity. Qed.
 
 (* the Condorcet cycle is not single-peaked: refuted by the reference, hence (sp_decide_correct) by the definition *)
 Example C03_example_not_sp :
